@@ -55,7 +55,7 @@ man = {
     ],
     'checks': checks,
     'not_applicable': na,
-    'notes': 'Technique family: static analysis only. Genuine defects found and repaired by fix: commits in /repo are listed in known_findings.json (status fixed); D4 (Pooled) is an open known finding.',
+    'notes': 'Technique family: static analysis only. Genuine defects found and repaired by fix: commits in /repo are listed in known_findings.json (status fixed); D4 (Pooled, long arcs) was a known finding until session 3 and is now repaired as well (fix: 0a5ccee); no finding is open.',
 }
 with open(os.path.join(HERE, 'MANIFEST.json'), 'w') as f:
     json.dump(man, f, indent=1)
